@@ -87,3 +87,60 @@ def digest(*objs, depth=7) -> bytes:
     for o in objs:
         deep(h, o, depth)
     return h.digest()
+
+
+def _tb(h, t):
+    h.update(str(t.dtype).encode())
+    h.update(repr(tuple(t.shape)).encode())
+    if t.numel():
+        h.update(t.detach().contiguous().reshape(-1).view(torch.uint8)
+                 .numpy().tobytes())
+
+
+def kfac_state(pre, extra_modules=(), tag=0) -> bytes:
+    """Fast digest of everything a rank can observe of its K-FAC state
+    (same content as digest(pre) but without the generic object walk)."""
+    h = hashlib.blake2b(digest_size=16)
+    h.update(repr((tag, pre._steps, sorted(pre._mini_steps.items()))
+                  ).encode())
+    for n in ('_damping', '_factor_decay', '_kl_clip', '_lr',
+              '_factor_update_steps', '_inv_update_steps'):
+        v = getattr(pre, n, None)
+        h.update(b'<fn>' if callable(v) else repr(v).encode())
+
+    def mod(m):
+        for n, p in m.named_parameters(recurse=False):
+            h.update(n.encode())
+            _tb(h, p)
+            if p.grad is not None:
+                _tb(h, p.grad)
+            else:
+                h.update(b'nograd')
+        for n, b in m.named_buffers(recurse=False):
+            h.update(n.encode())
+            _tb(h, b)
+        h.update(b'T' if m.training else b'E')
+
+    for m, (name, layer) in pre._layers.items():
+        h.update(name.encode())
+        for k, v in layer.__dict__.items():
+            if isinstance(v, torch.Tensor):
+                h.update(k.encode())
+                _tb(h, v)
+            elif isinstance(v, torch._C.Future):
+                h.update(k.encode())
+                h.update(b'<fut>')
+            elif v is None or isinstance(v, (bool, int, float, str)):
+                h.update(k.encode())
+                h.update(repr(v).encode())
+        mod(m)
+    tdc = getattr(pre, '_tdc', None)
+    if tdc is not None:
+        for b in getattr(tdc, '_allreduce_buckets', {}).values():
+            if b is not None:
+                h.update(b'bucket')
+                for t in getattr(b, '_tensors', []):
+                    _tb(h, t)
+    for m in extra_modules:
+        mod(m)
+    return h.digest()
